@@ -21,6 +21,15 @@ def ops19 (op : String) (a : List String) : Option String :=
       let s' := processMsg acc.1 m
       (s', acc.2 ++ [showFMap s'.map ++ "/" ++ ",".intercalate (s'.log.map toString)])) (FLog.empty, [])
     some ("ok\t" ++ "|".intercalate states.2)
+  | "flog.get", [evs, ctl, start, limit] =>
+    -- events so far, then a real read-through (start, limit) against the controller's log `ctl`
+    let msgs := (if evs = "" then [] else evs.splitOn ";").filterMap parseFMsg
+    let L := (if ctl = "" then [] else ctl.splitOn ",").filterMap (·.toNat?)
+    match start.toNat?, limit.toNat? with
+    | some st, some li =>
+      let s' := getFaultlog L (processAll FLog.empty msgs) st li
+      some ("ok\t" ++ showFMap s'.map ++ "/" ++ ",".intercalate (s'.log.map toString))
+    | _, _ => none
   | _, _ => none
 
 end Driver
